@@ -71,9 +71,11 @@ Digests (all lists length-prefixed: `<k> x1 … xk`; a COO triple is `row col va
     routes <k> <route>*k                               `get_routes` returned: length-prefixed list of routes;
                                                        seq `<route>` = `<m> n1 … nm` (node positions of one vehicle),
                                                        arc `<route>` = `<m> {node time}*m` (the stops of one route)
-    routes <err>                                       `get_routes` raised: arc `err:type` (nothing selected, or an index
-                                                       beyond the variables) / `err:assert` (window or visit-count
-                                                       assertion); seq `err:type` (index beyond the variables) /
+    routes <err>                                       `get_routes` raised: arc `err:type` (an index beyond the
+                                                       variables) / `err:assert` (window or visit-count assertion; in
+                                                       particular the EMPTY selection on a problem with a customer —
+                                                       on a depot-only problem the empty selection gives `routes 0`;
+                                                       in both cases nothing is enumerated); seq `err:type` (index beyond the variables) /
                                                        `err:index` (`pop(0)` from an exhausted tuple list)
     heur ok
     heur raised <err>                                  <err> ∈ err:value err:index err:assert err:type err:shape
